@@ -101,6 +101,24 @@ def secOf (k : RecKind) (d : Option Dir) : Option Section :=
   | .http, some .resp => some .httpResp
   | _, none => none
 
+/-- `create(record_cls, direction)` addressed the way the parser does (class, optional direction).  A directional class
+    without a direction has no list in this model (`_parse_section` never produces that pair): left unchanged. -/
+def Db.createKD (db : Db) (k : RecKind) (d : Option Dir) : Db :=
+  match secOf k d with
+  | some s => db.create s
+  | none => db
+
+/-- `add(record, direction)` with the record's class; `none` = `DatabaseError` -/
+def Db.addKD (db : Db) (k : RecKind) (d : Option Dir) (r : DbRec) : Option Db :=
+  match secOf k d with
+  | some s => (match db.add s r with | .ok db' => some db' | .error _ => none)
+  | none => none
+
+/-- `isinstance(label, Label)` -/
+def DbLabel.isOs : DbLabel → Bool
+  | .mtu _ => false
+  | .os _ _ => true
+
 /-- `iter_values(key, direction)` / `_get`: anything missing is a `DatabaseError` -/
 def Db.iter (db : Db) (k : RecKind) (d : Option Dir) : Except LoadErr (List DbRec) :=
   match secOf k d with
